@@ -124,6 +124,11 @@ theorem sendMessage_delCount (s : State) (rem : Remote) (mc : Bool) (token : Tok
 theorem sendBare_delCount (s : State) (rem : Remote) (t : MType) (m : Nat) :
     delCount (sendBare s rem t m).2 = 0 := rfl
 
+theorem fireEmptyAck_delCount (s : State) (rem : Remote) (token : Token) :
+    delCount (fireEmptyAck s rem token).2 = 0 := by
+  unfold fireEmptyAck
+  split <;> rfl
+
 theorem runMonitor_delCount (s : State) (m : Monitor) : delCount (runMonitor s m).2 = 0 := by
   unfold runMonitor
   cases m with
@@ -196,7 +201,7 @@ theorem tokenProcessRequest_deliverCount (R : Remote) (M : Nat) (s : State) (rem
 
 theorem recvCode_deliverCount (R : Remote) (M : Nat) (s : State) (rem : Remote) (mcl : Bool) (w : Wire) :
     deliverCount R M (recvCode s rem mcl w).2 ≤
-      if (isRequest w.code && (rem == R && w.mid == M)) = true then 1 else 0 := by
+      if (dedupable w && (rem == R && w.mid == M)) = true then 1 else 0 := by
   unfold recvCode
   split
   · have := deliverCount_eq_zero (sendBare_delCount s rem .rst w.mid) R M
@@ -205,8 +210,13 @@ theorem recvCode_deliverCount (R : Remote) (M : Nat) (s : State) (rem : Remote) 
     · simp
     · split
       · rename_i hc
-        simp only [Bool.and_eq_true] at hc
-        simp only [hc.1, Bool.true_and]
+        have hdd : dedupable w = true := hc
+        simp only [hdd, Bool.true_and]
+        unfold processRequest
+        simp only [deliverCount_append]
+        have h0 : deliverCount R M (fireEmptyAck s rem w.token).2 = 0 :=
+          deliverCount_eq_zero (fireEmptyAck_delCount s rem w.token) R M
+        rw [h0, Nat.zero_add]
         exact Nat.le_of_eq (tokenProcessRequest_deliverCount R M _ rem w)
       · split
         · dsimp only
@@ -227,7 +237,7 @@ theorem recvCode_deliverCount (R : Remote) (M : Nat) (s : State) (rem : Remote) 
 
 /-- a request whose identifier is not in the table is recorded, whatever its type -/
 theorem recv_HasEntry_of_new {s : State} {rem : Remote} {w : Wire} (mcl : Bool)
-    (hreq : isRequest w.code = true) (hnew : isDup s rem w = false) :
+    (hreq : dedupable w = true) (hnew : isDup s rem w = false) :
     HasEntry (recv s rem mcl w).1 rem w.mid (s.now + s.cfg.exchangeLifetime) := by
   unfold recv
   rw [if_neg (by simp [hnew])]
@@ -245,15 +255,15 @@ theorem recv_HasEntry_of_new {s : State} {rem : Remote} {w : Wire} (mcl : Bool)
 
 theorem recv_deliverCount (R : Remote) (M : Nat) (s : State) (rem : Remote) (mcl : Bool) (w : Wire) :
     deliverCount R M (recv s rem mcl w).2 ≤
-      if (!isDup s rem w && (isRequest w.code && (rem == R && w.mid == M))) = true then 1 else 0 := by
+      if (!isDup s rem w && (dedupable w && (rem == R && w.mid == M))) = true then 1 else 0 := by
   unfold recv
   split
   · have := deliverCount_eq_zero (recvDup_delCount s rem w) R M
     omega
   · rename_i hd
     simp only [hd, Bool.not_false, Bool.true_and]
-    generalize (if isRequest w.code = true then _ else s) = s0
-    generalize hp : (if (w.mtype == MType.ack || w.mtype == MType.rst) = true then
+    generalize (if dedupable w = true then _ else s) = s0
+    generalize hp : (if fitsReply w = true then
       removeExchange s0 rem w else (s0, [])) = p
     have h1 : delCount p.2 = 0 := by
       rw [← hp]
@@ -273,14 +283,14 @@ theorem recv_account (R : Remote) (M : Nat) (s : State) (rem : Remote) (mcl : Bo
   have hmono : free R M (recv s rem mcl w).1 ≤ free R M s := free_mono fun hk => by
     obtain ⟨x, hx⟩ := keyed_iff.mp hk
     exact keyed_iff.mpr ⟨x, recv_HasEntry hx _ _ _⟩
-  by_cases hc : (!isDup s rem w && (isRequest w.code && (rem == R && w.mid == M))) = true
+  by_cases hc : (!isDup s rem w && (dedupable w && (rem == R && w.mid == M))) = true
   · rw [if_pos hc] at hd
     simp only [Bool.and_eq_true, Bool.not_eq_true', beq_iff_eq] at hc
     obtain ⟨hnew, hreq, rfl, rfl⟩ := hc
     have hk' : keyed rem w.mid (recv s rem mcl w).1 = true :=
       keyed_iff.mpr ⟨_, recv_HasEntry_of_new mcl hreq hnew⟩
     have hk : keyed rem w.mid s = false := by
-      have e : isDup s rem w = (isRequest w.code && keyed rem w.mid s) := rfl
+      have e : isDup s rem w = (dedupable w && keyed rem w.mid s) := rfl
       rw [e, hreq] at hnew
       simpa using hnew
     simp only [free, hk', hk] at hmono ⊢
